@@ -319,7 +319,11 @@ func CheckVec[T Elem](pkg string, ops map[string]*Op[T]) func(Case) *vk.Failure 
 			}
 		}
 		if op.Red != RedNone {
-			return wrap(checkReduction(k, op, real.Ret, xs, ys, c.Class))
+			f := checkReduction(k, op, real.Ret, xs, ys, c.Class)
+			if f != nil {
+				f.Msg += fmt.Sprintf(" (x lanes %s, y lanes %s)", clip(xs), clip(ys))
+			}
+			return wrap(f)
 		}
 		return nil
 	}
